@@ -301,6 +301,10 @@ class MultiAntennaArray(object):
                     
                 antenna.bg_cache[1] = self.bg_y.v[bg_num_samples-antenna.delay:]
                 antenna.y.v += bg_y_v
+
+            # Keep the antenna's own clock in step with its data streams
+            antenna.t_start += num_samples * antenna.dt
+            antenna.start_obs = False
                 
         self.t_start += num_samples * self.dt
         self.start_obs = False
